@@ -210,15 +210,25 @@ def run(ctx: Ctx) -> Result:
         name = irng.choice(list(OPS))
         a, b = big(irng), big(irng)
         if not (fits(a) and fits(b)): continue
+        def enc(n):
+            # decoding is many-to-one: every sign-extended spelling of n is the same integer to every instruction
+            e = ref_i2b(n)
+            if irng.random() < .25:
+                e2 = (b'\xff' if n < 0 else b'\x00') * irng.choice([1, 2, 3, 8]) + e
+                if len(e2) <= cfg.max_item_size: e = e2
+            return e
+        if irng.random() < .15: b = a                                   # equal operands (in possibly different spellings)
         if name in ('DIV_INT', 'MOD_INT'):
-            if not -2**1000 < b < 2**1000: b = irng.randrange(-300, 300)
-            eb = ref_i2b(b)
+            if not -2**2030 < b < 2**2030: b = irng.randrange(-300, 300)     # the immediate's length byte goes up to 255
+            eb = enc(b)
+            if len(eb) > 255: eb = ref_i2b(b)
             if len(eb) > 255: continue
-            script = G.push(ref_i2b(a)) + bytes([N[name], len(eb)]) + eb
+            script = G.push(enc(a)) + bytes([N[name], len(eb)]) + eb
         elif name in ('LESS', 'LESS_OR_EQUAL'):
-            script = G.push(ref_i2b(a)) + G.push(ref_i2b(b)) + bytes([N[name]])
+            script = G.push(enc(a)) + G.push(enc(b)) + bytes([N[name]])
         else:
-            script = G.push(ref_i2b(a)) + G.push(ref_i2b(b)) + bytes([N[name]]) + (b'\x02' if name in ('ADD_INTS', 'SUBTRACT_INTS', 'MULT_INTS') else b'')
+            script = G.push(enc(a)) + G.push(enc(b)) + bytes([N[name]]) + (b'\x02' if name in ('ADD_INTS', 'SUBTRACT_INTS', 'MULT_INTS') else b'')
+        if len(script) > 60000: continue
         o = vmrun.run_impl(cfg, {}, script)
         run_lines.append(vmrun.case_line('RUN', cfg, {}, [script])); run_outs.append(o)
         res.note_case(('intop', name, a, b)); nops += 1
